@@ -24,6 +24,14 @@ CHECKS = {
    text="Theorems for every output text, every Unicode classification and both include-faulty settings: each of the six built-in adapters (seven parse variants) returns a reject or a non-empty list of data points with exactly one 'total', last, and no other exception; a failure marker reached before an accepting exit rejects as invalid unless faulty results were requested; generic version for any adapter written with the common loop. The regular expressions are regenerated from the source on every run; the hand-written loops are tied to the real parse_data by grammar-guided near-misses, splices and random strings, and the regex engine is compared with CPython's re.",
    note="Trusted: Gallina regex engine + tr_regex.py (both validated against re each run), CPython float()/int() on extracted tokens, palette of non-ASCII characters for the executable instance (theorems hold for arbitrary classes).",
    technique="Rocq proof (induction over lines, generic in the classifier) + translated regular expressions + differential correspondence"),
+ "C01": dict(
+   text="Theorem: whenever a typed configuration and selection compile, the resulting list has no duplicates and contains exactly the declaratively specified runs (selected experiments x executions x the execution's suites x benchmarks x effective cores x input sizes x variable values x tags, kept iff every filter group has a matching filter). The hand-written compilation model is tied to the real Configurator.get_runs() by generated typed configurations x selections compared as sets of full identity keys, and to an independent reference enumeration.",
+   note="YAML loading and pykwalify outside the model (typed AST in). Python == identifications beyond bool~int (integral floats) outside the generated domain. Trusted: the harness's projection of RunId objects to identity keys.",
+   technique="Rocq proof (in_flat_map / NoDup_nodup over the enumeration) + correspondence on generated configurations"),
+ "C19": dict(
+   text="PARTIAL. Theorems over the typed configuration AST: compilation never yields an unhandled exception, and every complete configuration (all referenced experiments, machines, executors, suites defined, executions and suites named, profilers present) is accepted. Tied to the real Configurator by typed configurations with one completeness defect each (verdict and run set compared). For untyped YAML documents (wrong scalar types, unknown keys, dot-keys, anchors, nulls, non-mapping roots, empty) the claim rests on differential exploration through the real entry point.",
+   note="PyYAML and pykwalify are third-party code outside the model; exploration only for untyped documents.",
+   technique="Rocq proof over the typed AST + verdict correspondence + exploration of mutated YAML documents through main_func"),
 }
 PENDING_REASON = "check not built yet in this round (planned at level proof, see DESIGN.md section 5); not claimed until its check exists"
 
